@@ -28,7 +28,7 @@ Definition o_kids (o : odoc) := match o with ODoc _ _ _ _ k => k end.
 
 Record topdoc := mkTop {
   t_root : odoc;
-  t_thumb : option str;
+  t_thumb : option (str * str);                  (* thumbnail: bytes, media type of its manifest entry *)
   t_extras : list (str * str * option str)      (* OpaqueObject: filename, mediatype, content *)
 }.
 
@@ -78,8 +78,8 @@ Definition save_m (t : topdoc) : list entry * manifest :=
   let mime := mkE sMIMETYPE true [] (DBytes (o_mt (t_root t))) in
   let '(ex, mx) := save_xml true [] (t_root t) in
   let '(ep, mp) := save_pics [] (t_root t) in
-  let et := match t_thumb t with Some b => [mkE sTHUMB false [] (DBytes b)] | None => [] end in
-  let mt := match t_thumb t with Some _ => [(sTHUMBDIR, []); (sTHUMB, [])] | None => [] end in
+  let et := match t_thumb t with Some b => [mkE sTHUMB false [] (DBytes (fst b))] | None => [] end in
+  let mt := match t_thumb t with Some b => [(sTHUMBDIR, []); (sTHUMB, snd b)] | None => [] end in
   let xs := filter (fun x => negb (str_eqb (fst (fst x)) sSIG)) (t_extras t) in
   let ee := flat_map (fun x => match snd x with Some b => [mkE (fst (fst x)) false [] (DBytes b)] | None => [] end) xs in
   let me := map (fun x => (fst (fst x), snd (fst x))) xs in
@@ -134,7 +134,8 @@ Definition load_m (m : manifest) (member : str -> str) (mimetype : str) (root_se
   let objs := flat_map (fun e => match classify m (fst e) with
                                  | IsObject => [ODoc (snd e) (cSLASHc :: removelast (fst e)) (obj_settings (fst e)) [] []]
                                  | _ => [] end) m in
-  let thumb := if existsb (fun e => match classify m (fst e) with IsThumbnail => true | _ => false end) m then Some (member sTHUMB) else None in
+  let thumb := match find (fun e => match classify m (fst e) with IsThumbnail => true | _ => false end) m with
+               | Some e => Some (member sTHUMB, snd e) | None => None end in
   let extras := flat_map (fun e => match classify m (fst e) with
                                    | IsExtra => [(fst e, snd e, if ends_slash (fst e) then None else Some (member (fst e)))]
                                    | _ => [] end) m in
